@@ -216,12 +216,15 @@ def pkgInventory : List (String × String × String × String × String) :=
 writer pools of filter.go): (pool, function, get/put, argument, number of paths through the
 function which execute the site, maximal number of Puts of that pool on one path, branch
 conditions under which the site is reached, Close-idempotence guard).  Compared on every run with
-the inventory re-extracted from the Go sources (harness/conc_a_pool.go).  `guard = none` on the
-two Close-like Put sites is finding C18-F3 (a second Close puts the object into the pool again). -/
+the inventory re-extracted from the Go sources (harness/conc_a_pool.go).  Since commit 6979937
+(C18-F3 repaired) both Close-like Put sites are protected by a persisting `closed` flag: a field
+of the pointer receiver, and a variable captured by the `close` closure. -/
 def poolInventory : List (String × String × String × String × Nat × Nat × String × String) :=
-  [ ("pdf.zlibReaderPool", "(pooledZlibReader).Close", "put", "r.ReadCloser", 2, 1, "!(err!=nil)", "none"),
+  [ ("pdf.zlibReaderPool", "(*pooledZlibReader).Close", "put", "r.ReadCloser", 2, 1,
+      "!(err!=nil)&!(r.closed)", "flag:r.closed"),
     ("pdf.zlibReaderPool", "zlibNewReader", "get", "-", 4, 0, "-", "-"),
-    ("pdf.zlibWriterPool", "encodeFlateLZW$close", "put", "originalZw", 1, 1, "!(err!=nil)&!isLZW", "none"),
+    ("pdf.zlibWriterPool", "encodeFlateLZW$close", "put", "originalZw", 1, 1,
+      "!(closed)&!(err!=nil)&!isLZW", "flag:closed"),
     ("pdf.zlibWriterPool", "encodeFlateLZW", "get", "-", 1, 0, "!(isLZW)", "-") ]
 
 end PdfVerif.CONC
